@@ -425,6 +425,7 @@ func RunFsOp(fs filesystem.Filespace, op FsOp) (r FsResult) {
 
 func writeChunked(w io.Writer, data []byte, chunks []int) error {
 	i := 0
+	total := len(data) // which of the three write methods comes first varies with the content length
 	var scratch []byte
 	for len(data) > 0 || i < len(chunks) {
 		n := len(data)
@@ -446,7 +447,7 @@ func writeChunked(w io.Writer, data []byte, chunks []int) error {
 		// ReadFrom when the writer offers it) and io.WriteString (WriteString when offered)
 		var k int
 		var err error
-		switch i % 3 {
+		switch (i*7 + total + n) % 3 {
 		case 1:
 			var k64 int64
 			// the source must not offer WriteTo (io.Copy would prefer it over the writer's ReadFrom)
